@@ -10,6 +10,9 @@ import Driver.C11
 import Driver.C18
 import Driver.C07
 import Driver.C20
+import Driver.C05
+import Driver.C12
+import Driver.C08
 import Driver.C14
 
 open Driver
@@ -17,7 +20,7 @@ open Driver
 def dispatch (st : St) (op : String) (args : List String) (impl : Option String) :
     St × Out :=
   let hs : List (St → String → List String → Option String → Option (St × Out)) :=
-    [Driver.C17.handle, Driver.C15.handle, Driver.C16.handle, Driver.C06.handle, Driver.C19.handle, Driver.C09.handle, Driver.Serve.handle, Driver.C11.handle, Driver.C14.handle, Driver.C18.handle, Driver.C07.handle, Driver.C20.handle]
+    [Driver.C17.handle, Driver.C15.handle, Driver.C16.handle, Driver.C06.handle, Driver.C19.handle, Driver.C09.handle, Driver.Serve.handle, Driver.C11.handle, Driver.C14.handle, Driver.C18.handle, Driver.C07.handle, Driver.C20.handle, Driver.C05.handle, Driver.C12.handle, Driver.C08.handle]
   let rec go : List (St → String → List String → Option String → Option (St × Out)) → St × Out
     | [] => (st, { model := "bad-op", spec := "-" })
     | h :: t => match h st op args impl with
